@@ -55,3 +55,13 @@ Definition dot_bound_ok (xys : list (float * float)) (r : float) : bool :=
   | Some zs, Some zr => within_bound zr zs (2 * 2 ^ 53)
   | _, _ => true
   end.
+
+(** |r - S| <= k·u·Σ|terms| + subnormal slack: a value computed by at most
+    about k roundings of partial results bounded by Σ|terms| *)
+Definition approx_ok (r : float) (terms : list (option Z)) (k : Z) : bool :=
+  match zall terms, zval r with
+  | Some zs, Some zr =>
+      Z.abs (zr - zsum zs) * 2 ^ 53 <=? k * zasum zs + (k + 2) * 2 ^ (1125 + 53)
+  | _, _ => true
+  end.
+Definition zneg (z : option Z) : option Z := option_map Z.opp z.
